@@ -37,7 +37,7 @@ fn ord(o: Ordering) -> i64 {
 /// `yv action-replay <rows.ndjson>`: rows of MC_Action (emit: per action; float: per grid point)
 pub fn replay(args: &[String]) {
 	let rows = read_lines(&args[0]);
-	let mut out = Out::new();
+	let mut out = Sink::new();
 	let seq = all();
 	for r in &rows {
 		if let Some(k) = r.get("k").and_then(Value::as_i64) {
